@@ -9,8 +9,7 @@ from pathlib import Path
 from typing import Any, Mapping, Optional
 
 import click
-from boolean.boolean import Expression, ParseError
-from license_expression import ExpressionError
+from boolean.boolean import Expression
 
 from .. import _LICENSING
 from ..exceptions import GlobalLicensingConflictError, GlobalLicensingParseError
@@ -109,7 +108,9 @@ def spdx_identifier(text: str) -> Expression:
     """Factory for creating SPDX expressions."""
     try:
         return _LICENSING.parse(text)
-    except (ExpressionError, ParseError) as error:
+    # The expression parser raises other errors than its own on degenerate
+    # input such as '()'.
+    except Exception as error:
         raise click.UsageError(
             _("'{}' is not a valid SPDX expression.").format(text)
         ) from error
